@@ -197,101 +197,6 @@ def check_ssa(ssa_cfg, head):
 
 # ---------------------------------------------------------------------------------- part B
 
-def states():
-    out = []
-    names = [("EAX", 32), ("EBX", 32), ("ECX", 32), ("EDX", 32), ("ESI", 32), ("EDI", 32), ("EBP", 32)]
-    for k in range(NSTATES):
-        if k < 5:
-            out.append(gg.init_state(k))
-        else:
-            # small register values: equalities / zero tests between registers become true
-            s0 = gg.init_state(k)
-            regs = {}
-            for j, (n, sz) in enumerate(names):
-                regs[(n, sz)] = (s0.reg(n, sz) >> (3 * j)) & 3
-            out.append(gg.init_state(k, regs=regs))
-    return out
-
-
-def final_reg(run, state, name, size, base_map):
-    """value of register (name, size) at the exit, read through the variable standing for it: the most recently
-    assigned identifier whose base (base_map) is the register; the register itself when none was assigned"""
-    best, bestn = (name, size), 0
-    for (n, sz), seq in run.last_def.items():
-        if sz != size:
-            continue
-        if base_map(n, sz) == (name, size) and seq > bestn:
-            best, bestn = (n, sz), seq
-    return state.reg(*best), best[0]
-
-
-def compare_runs(orig_cfg, new_cfg, head, out_regs, base_map, nstates=NSTATES, stats=None, want_key=None,
-                 mode="final"):
-    """-> (bucket suffix, detail) | None"""
-    from vlib import irinterp
-    for k, st0 in enumerate(states()[:nstates]):
-        if want_key is not None and k != want_key:
-            continue
-        s1, s2 = st0.copy(), st0.copy()
-        try:
-            r1 = gg.run_logged(orig_cfg, head, s1)
-        except (irinterp.Undefined, irinterp.DomainError):
-            if stats is not None:
-                stats["state-dropped:undefined-original"] += 1
-            continue
-        if r1.reason != "exit":
-            if stats is not None:
-                stats["state-dropped:" + r1.reason] += 1
-            continue
-        s2.locs = dict(s1.locs)
-        try:
-            r2 = gg.run_logged(new_cfg, head, s2)
-        except irinterp.Undefined as e:
-            return ("undefined-operation", "state %d: translated graph divides by zero where the original does not" % k)
-        except irinterp.DomainError as e:
-            return ("invalid-ir", "state %d: translated graph is not executable: %s" % (k, e))
-        if stats is not None:
-            stats["runs"] += 1
-            stats["run-blocks"] += len(r1.path)
-        if r2.reason != "exit":
-            return ("no-exit", "state %d: original exits to 0x%x after %d blocks, translated graph: %s after %d blocks"
-                    % (k, r1.dst, len(r1.path), r2.reason, len(r2.path)))
-        if mode == "final":
-            for cell in sorted(set(r1.final_mem) | set(r2.final_mem)):
-                b1 = r1.final_mem[cell] if cell in r1.final_mem else s1.read_mem(cell[0], cell[1], 1)
-                b2 = r2.final_mem[cell] if cell in r2.final_mem else s2.read_mem(cell[0], cell[1], 1)
-                if b1 != b2:
-                    return ("memory", "state %d: byte at 0x%x is 0x%02x at the exit of the original, 0x%02x in the "
-                            "translated graph (path %s vs %s)"
-                            % (k, cell[1], b1, b2, [str(x) for x in r1.path], [str(x) for x in r2.path]))
-        elif r1.effective != r2.effective:
-            n = 0
-            while n < min(len(r1.effective), len(r2.effective)) and r1.effective[n] == r2.effective[n]:
-                n += 1
-            e1 = r1.effective[n] if n < len(r1.effective) else None
-            e2 = r2.effective[n] if n < len(r2.effective) else None
-            return ("events", "state %d: event %d differs: original %s, simplified %s (path %s vs %s)"
-                    % (k, n, fmt_ev(e1), fmt_ev(e2), [str(x) for x in r1.path], [str(x) for x in r2.path]))
-        if r1.dst != r2.dst:
-            return ("exit", "state %d: original exits to 0x%x, translated graph to 0x%x (path %s vs %s)"
-                    % (k, r1.dst, r2.dst, [str(x) for x in r1.path], [str(x) for x in r2.path]))
-        for reg in sorted(out_regs or (), key=str):
-            v1 = s1.reg(reg.name, reg.size)
-            v2, through = final_reg(r2, s2, reg.name, reg.size, base_map)
-            if v1 != v2:
-                return ("out-register:%s" % reg.name,
-                        "state %d: %s = 0x%x at the exit of the original, 0x%x in the translated graph (read through %s; "
-                        "path %s vs %s)" % (k, reg.name, v1, v2, through, [str(x) for x in r1.path],
-                                            [str(x) for x in r2.path]))
-    return None
-
-
-def fmt_ev(e):
-    if e is None:
-        return "none"
-    return "(" + ", ".join(hex(x) if isinstance(x, int) else str(x) for x in e) + ")"
-
-
 def out_of_ssa(lifter, ssa, head):
     """as IRCFGSimplifierSSA.ssa_to_unssa -> None | (bucket, detail)"""
     from miasm.analysis.outofssa import UnSSADiGraph
@@ -346,7 +251,7 @@ def judge(graph, stats=None, info=None):
     # B1: out of SSA of the fresh SSA form
     r = out_of_ssa(lifter, ssa, head)
     if r is None:
-        r = compare_runs(ircfg, work, head, None, base_map, stats=stats)
+        r = gg.compare_runs(ircfg, work, head, stats=stats, word="translated")
     if r:
         fails.append(("unssa:" + r[0], r[1]))
     # B2: out of SSA after copy propagation on the SSA form (what the SSA simplifier feeds it with: this is where
@@ -360,7 +265,7 @@ def judge(graph, stats=None, info=None):
             stats["copy-propagated-graphs"] += 1
         r = out_of_ssa(lifter, ssa2, head)
         if r is None:
-            r = compare_runs(ircfg, work2, head, None, base_map, stats=stats)
+            r = gg.compare_runs(ircfg, work2, head, stats=stats, word="translated")
         if r:
             fails.append(("unssa-after-copy-propagation:" + r[0], r[1]))
     return fails
